@@ -20,7 +20,7 @@ func init() {
 			"for append-1 and create-empty files the loader creates the file when absent and accepts any whole number of records; for create-then-write (server.keys) and truncate-then-write (gcaPubKey.dat) the loader must treat an empty file exactly like an absent one: " +
 			"every use of the contents as valid state is dominated by len == full size (BOUND), and no error return of the loader is reachable with an empty file; ORDER every in-memory update that a durable write justifies is dominated by the successful write in the same critical section, " +
 			"or the failure stops the process; PARTIAL every operation writes at most one record to at most one durable file, so no operation can be half applied across files; WHO-MAY only the classified writers touch the durable files. " +
-			"LOG a record log written by truncate/create-then-write is a violation (earlier records destroyed). ORDER is decided by re-running the saver structures of C07 (key file written before key and flag are set, every success sets both), C06 (authorization appended before the tables change) and C03 (archived week on disk before the offset advances); a file created and then written in more than one Write is a violation (a crash between them leaves a partial non-empty file). The device-table and replay rules of C06/C04 are re-run (replaying a durable prefix makes the live case analysis); a registration is never refused because of a disk probe (os.Stat/Open/ReadFile) - after a crash inside the key write the file exists while the server is unregistered. NOT decided: torn single writes and power loss (outside the stated model), SIGKILL timing as such, that the recovered state equals a prefix of the submitted operations (C04 covers replay).",
+			"LOG a record log written by truncate/create-then-write is a violation (earlier records destroyed). ORDER is decided by re-running the saver structures of C07 (key file written before key and flag are set, every success sets both), C06 (authorization appended before the tables change) and C03 (archived week on disk before the offset advances); a file created and then written in more than one Write is a violation (a crash between them leaves a partial non-empty file). The device-table and replay rules of C06/C04 are re-run (replaying a durable prefix makes the live case analysis); a registration is never refused because of a disk probe (os.Stat/Open/ReadFile) - after a crash inside the key write the file exists while the server is unregistered. REPLAY the loaders of the durable files and what they call never read the clock (replay does not depend on when the server restarts). NOT decided: torn single writes and power loss (outside the stated model), SIGKILL timing as such, that the recovered state equals a prefix of the submitted operations (C04 covers replay).",
 		Assumptions: append([]string{"process-crash model: a completed write(2)/open(2) survives, an O_APPEND write of one buffer is not interleaved (README: File Writing and Archiving)"}, baseAssumptions...),
 		Run:         runC05,
 	})
@@ -133,6 +133,7 @@ func runC05(c *an.Ctx) {
 		for _, ld := range r.loaders {
 			c.Scope(ld)
 			loaderTolerance(c, ld, file, exposesEmpty)
+			replayIgnoresClock(c, ld, file)
 		}
 	}
 	c.Count("PROTOCOL", n)
@@ -420,4 +421,35 @@ func errorReturnsAreIO(p *an.Program, fn *ssa.Function) bool {
 		}
 	}
 	return true
+}
+
+// replayIgnoresClock: what a loader replays was accepted when it was written; whether it is accepted again must not
+// depend on when the server happens to be restarted. Neither the loader nor anything it calls synchronously (the logger
+// apart, which stamps its lines) reads the clock: a check that is "still valid now" (acceptance window, expiration) in a
+// function that replay shares with the live path drops durable records or stops the start-up.
+func replayIgnoresClock(c *an.Ctx, ld *ssa.Function, file string) {
+	p := c.P
+	if ld.Pkg == nil || ld.Pkg.Pkg.Name() != "server" {
+		return
+	}
+	var where []string
+	for fn := range p.SyncReach(ld) {
+		if strings.Contains(an.FuncName(fn), "Logger)") {
+			continue
+		}
+		for _, b := range fn.Blocks {
+			for _, in := range b.Instrs {
+				call, ok := in.(*ssa.Call)
+				if !ok {
+					continue
+				}
+				name := an.CalleeName(&call.Call)
+				if name == "time.Now" || name == "time.Since" || strings.HasSuffix(name, "glow.CurrentTimeslot") {
+					where = append(where, an.FuncName(fn)+" calls "+name)
+				}
+			}
+		}
+	}
+	sort.Strings(where)
+	c.Check(len(where) == 0, "REPLAY", ld, ld.Pos(), an.KeyOf(ld, "replay-ignores-clock:"+file), "the loader of "+file+" and what it calls do not read the clock (a durable record is replayed whenever the server restarts)", strings.Join(where, "; "))
 }
